@@ -809,7 +809,7 @@ def gen_python_path(rng):
 
 
 def is_py_unavailable(case):
-    """shape of finding F19: Python path, the chosen alternative is unavailable"""
+    """shape of finding F-C05-1: Python path, the chosen alternative is unavailable"""
     return bool(case and case.get('python_path'))
 
 
@@ -895,7 +895,7 @@ def check(ctx) -> Result:
             check_malformed(ctx, res, gen_malformed(rng, rng.choice(['nested', 'nestedmu', 'cnl', 'cnlmu'])))
         for _ in range(ctx.n(10, 200)):
             case = gen_python_path(rng)
-            # the shape of finding F19 (unavailable chosen alternative on the Python path) is kept out of
+            # the shape of finding F-C05-1 (unavailable chosen alternative on the Python path) is kept out of
             # the main stream: only available alternatives are asked there
             case['av'] = [{'k': 'num', 'v': 1} for _ in case['alts']] if rng.random() < 0.3 else case['av']
             check_python_path_available_only(ctx, res, case)
